@@ -1,11 +1,22 @@
 import Drive.Json
 import Drive.C14
+import Drive.Async
+import Drive.Equalizer
+import Drive.Studio
+import Drive.S3
+import Drive.Lookup
+import Drive.Codec
+import Drive.Files
+import Drive.Heap
+import Drive.Recorder
 /-! Line-protocol driver: one JSON object per line on stdin (`{"m": <handler>, …}`), one JSON value per line on
 stdout (`{"ok": …}` or `{"err": …}`).  Runs the executable definitions of the model. -/
 open Lean
 
 def allHandlers : List (String × Drive.Handler) :=
-  Drive.C14.handlers
+  Drive.C14.handlers ++ Drive.Async.handlers ++ Drive.Equalizer.handlers ++ Drive.Studio.handlers ++
+  Drive.S3.handlers ++ Drive.Lookup.handlers ++ Drive.Codec.handlers ++ Drive.Files.handlers ++
+  Drive.Heap.handlers ++ Drive.Recorder.handlers
 
 def dispatch (line : String) : Json :=
   match Json.parse line with
